@@ -210,6 +210,16 @@ Definition init (W L : nat) : state :=
   mkState W L 0 0 [] PhIdle [] [] 0 W [] [] [] 0 0 [] [] [] MIdle [] 0
           false false false false false false false false [] [].
 
+(* ---- NewQueue(options...): the effective configuration ----
+   Defaults workerCount = runtime.NumCPU(), queueLength = 2 * NumCPU; the options are applied in argument order, each
+   writes one field, so the last WithWorkers / WithQueueLength wins and options of different kinds do not interact. *)
+Inductive qopt := OptWorkers (n : nat) | OptLength (n : nat).
+Definition apply_opt (cfg : nat * nat) (o : qopt) : nat * nat :=
+  match o with OptWorkers n => (n, snd cfg) | OptLength n => (fst cfg, n) end.
+Definition effective (ncpu : nat) (opts : list qopt) : nat * nat := fold_left apply_opt opts (ncpu, 2 * ncpu).
+Definition init_opts (ncpu : nat) (opts : list qopt) : state :=
+  init (fst (effective ncpu opts)) (snd (effective ncpu opts)).
+
 (* ---- labels ---- *)
 Inductive label :=
 (* environment *)
